@@ -370,10 +370,52 @@ Definition judge_asr (c o : sexp) : verdict :=
   | _, _, _ => VBad "undecodable case"
   end.
 
+(** * very wide star trees (oracle only, binary numbers)
+    case: ((kind star) (counts (c0 c1 ...)) (names (s0 s1 ...)) (algo a)): the worker builds the
+    star whose state si is carried by ci tips.  A labelling of a star is the state x of its
+    root; its cost is the number of tips with another state, sum_{s<>x} c_s.  The model (unary
+    numbers) is not run on these; the specification is evaluated directly.
+    obs: ((err e) (steps n) (root (s ...)) (altered n)) *)
+Definition star_cost (counts : list N) (x : nat) : N :=
+  fold_right N.add 0%N (map (fun p => if Nat.eqb (fst p) x then 0%N else snd p) (combine (seq 0 (length counts)) counts)).
+Definition nmin (l : list N) : N := match l with [] => 0%N | x :: r => fold_left N.min r x end.
+
+Definition judge_star (c o : sexp) : verdict :=
+  match (x <- get "counts" c ;; dec_list dec_N x), get_strings "names" c, (x <- get_string "algo" c ;; dec_algo x) with
+  | Some counts, Some names, Some a =>
+    match get_string "err" o, (x <- get "steps" o ;; dec_N x), get_strings "root" o, get_nat "altered" o with
+    | Some gerr, Some gsteps, Some groot, Some altered =>
+      if negb (String.eqb gerr "") then VOracle ("implementation refuses: " ++ gerr) else
+      let k := length counts in
+      let costs := map (star_cost counts) (seq 0 k) in
+      let m := nmin costs in
+      if negb (N.eqb gsteps m)
+      then VOracle ("star: steps " ++ string_of_Z (Z.of_N gsteps) ++ " but the minimum number of changes is "
+                    ++ string_of_Z (Z.of_N m))
+      else if negb (Nat.eqb altered 0) then VOracle "star: the state of a tip was altered"
+      else match omap (fun st => index_of st names) groot with
+           | None => VOracle "star: the root carries an unknown state"
+           | Some idx =>
+             if negb (forallb (fun i => N.eqb (nth i costs (N.succ m)) m) idx)
+             then VOracle "star: a state reported at the root occurs in no most-parsimonious reconstruction"
+             else match a with
+                  | Downpass =>
+                    if forallb (fun i => negb (N.eqb (nth i costs (N.succ m)) m) || mem i idx) (seq 0 k)
+                    then VOk (N.ltb 0 m) "star:downpass"
+                    else VOracle "star: DOWNPASS misses a state of a most-parsimonious reconstruction"
+                  | _ => VOk (N.ltb 0 m) ("star:" ++ algo_name a)
+                  end
+           end
+    | _, _, _, _ => VBad "undecodable observation"
+    end
+  | _, _, _ => VBad "undecodable case"
+  end.
+
 Definition judge (c o : sexp) : verdict :=
   match get_string "kind" c with
   | Some k => if String.eqb k "acr" then judge_acr c o
               else if String.eqb k "asr" then judge_asr c o
+              else if String.eqb k "star" then judge_star c o
               else VBad "unknown kind"
   | None => VBad "no kind"
   end.
